@@ -97,6 +97,10 @@ def last_seg(path):
     return p[last:]
 
 
+_STD_VARIANTS = {"core::option::Option": {"None": 0, "Some": 1}, "core::result::Result": {"Ok": 0, "Err": 1},
+                 "core::ops::ControlFlow": {"Continue": 0, "Break": 1}, "core::ops::control_flow::ControlFlow": {"Continue": 0, "Break": 1}}
+
+
 class Body:
     def __init__(self, d, facts):
         self.d = d
@@ -218,6 +222,8 @@ class Body:
                 continue
             reach.add(x)
             st.extend(succ[x])
+        # predecessors that cannot be reached themselves (the original continuation of an inlined call, pruned arms) are no predecessors
+        pred = [[p_ for p_ in ps if p_ in reach] for ps in pred]
         self._cfg = (succ, pred, reach)
         return self._cfg
 
@@ -232,6 +238,9 @@ class Body:
         if e[0] != "discr":
             return None
         c = e[1]
+        if isinstance(c, tuple) and c[0] == "agg" and c[1] in _STD_VARIANTS and c[2] in _STD_VARIANTS[c[1]]:
+            # `match helper() { Some(..) => .. }` after inlining: the value was just built as a literal variant on this path
+            return _STD_VARIANTS[c[1]][c[2]]
         if not (isinstance(c, tuple) and c[0] == "call" and norm_path(c[1]["path"]) == "core::ops::Try::branch" and c[2]):
             return None
         a = c[2][0]
@@ -385,8 +394,21 @@ class Body:
                 if rv["k"] == "use" and op_local(rv["o"][0]) is not None and not op_place(rv["o"][0])["p"]:
                     l = op_local(rv["o"][0])
                     continue
+                if rv["k"] == "discr" and not rv["pl"]["p"] and self._never_borrowed_mut(rv["pl"]["l"]):
+                    # `match x { .. }` twice on the same never-reassigned, never mutably borrowed enum local: both switches see the same variant
+                    l = rv["pl"]["l"]
+                    continue
             return (l, sd)
         return None
+
+    def _never_borrowed_mut(self, l):
+        for i, j, st in self.stmts():
+            rv = st["rv"]
+            if rv["k"] in ("ref", "rawptr") and rv.get("mut") and rv["pl"]["l"] == l:
+                return False
+            if st["lhs"]["l"] == l and st["lhs"]["p"]:
+                return False
+        return True
 
     def correlated_exclusions(self, blk):
         """edges (src, tgt) that cannot be taken on any path reaching blk, because blk is dominated by an edge of another
@@ -835,6 +857,46 @@ def inline_body(bd, at_block, callee):
                     cur = nb
                 else:
                     cur["term"] = tt
+    # Reference parameters: `helper(&mut self.field, ..)` - inside the inlined body `*param` IS self.field. When the argument is a temporary with the
+    # single definition `tmp = &[mut] PLACE` (PLACE rooted in a never-reassigned local, no index projection) and the callee never reassigns the
+    # parameter, every `(*param).proj` of the inlined blocks is rewritten to `PLACE.proj`, so that field-keyed rules see the same stores and reads
+    # as before the extraction.
+    subst = {}
+    for i, a in enumerate(t["args"]):
+        if i + 1 > callee["argc"]:
+            continue
+        ap = a.get("move") or a.get("copy")
+        if not ap or ap["p"]:
+            continue
+        dfs_ = [st for bl_ in bd["blocks"][:base_b] if not bl_["cleanup"] for st in bl_["st"] if st["lhs"]["l"] == ap["l"]]
+        if len(dfs_) != 1 or dfs_[0]["lhs"]["p"] or dfs_[0]["rv"]["k"] != "ref":
+            continue
+        pl = dfs_[0]["rv"]["pl"]
+        for _ in range(4):       # reborrow chains: tmp2 = &mut *tmp1 ; tmp1 = &mut self.field
+            if not (pl["p"] and pl["p"][0] == "*"):
+                break
+            d2 = [st for bl_ in bd["blocks"][:base_b] if not bl_["cleanup"] for st in bl_["st"] if st["lhs"]["l"] == pl["l"]]
+            c2 = [bl_ for bl_ in bd["blocks"][:base_b] if not bl_["cleanup"] and bl_["term"]["k"] == "call" and bl_["term"]["dest"]["l"] == pl["l"]]
+            if len(d2) != 1 or c2 or d2[0]["lhs"]["p"] or d2[0]["rv"]["k"] != "ref":
+                break
+            pl = {"l": d2[0]["rv"]["pl"]["l"], "p": list(d2[0]["rv"]["pl"]["p"]) + list(pl["p"][1:])}
+        if any(isinstance(x, dict) and "ix" in x for x in pl["p"]):
+            continue
+        root_defs = [st for bl_ in bd["blocks"][:base_b] if not bl_["cleanup"] for st in bl_["st"] if st["lhs"]["l"] == pl["l"] and not st["lhs"]["p"]]
+        root_calls = [bl_ for bl_ in bd["blocks"][:base_b] if not bl_["cleanup"] and bl_["term"]["k"] == "call" and bl_["term"]["dest"]["l"] == pl["l"] and not bl_["term"]["dest"]["p"]]
+        if pl["l"] > bd.get("argc", 0) and len(root_defs) + len(root_calls) != 1:
+            continue
+        if pl["l"] <= bd.get("argc", 0) and (root_defs or root_calls):
+            continue
+        if any(st["lhs"]["l"] == i + 1 and not st["lhs"]["p"] for cb in callee["blocks"] for st in cb["st"]):
+            continue
+        subst[lm(i + 1)] = pl
+    if subst:
+        for pl_ in _walk_places([{"blocks": bd["blocks"][base_b:]}]):
+            if pl_["l"] in subst and pl_["p"] and pl_["p"][0] == "*":
+                tgt = subst[pl_["l"]]
+                pl_["p"] = _copy.deepcopy(tgt["p"]) + pl_["p"][1:]
+                pl_["l"] = tgt["l"]
     # argument copies, then jump into the callee
     blk = bd["blocks"][at_block]
     for i, a in enumerate(t["args"]):
